@@ -63,10 +63,27 @@ def exc_class(e):
     return _exc_class(e)
 
 
+FAMILY = ("SnmpError", "SnmpDecodeError", "SnmpEncodeError", "SnmpAuthError", "NoSuchInstance")
+
+
 def _exc_class(e):
-    """Canonical name of what a call raised; PanicException is not an Exception subclass."""
+    """Canonical name of what a call raised, as the caller's `except gufo.snmp.<Name>` sees it: a class of the library's
+    family is named by the name the package EXPORTS it under (identity of the class object, not its __name__); one that
+    is raised but not exported under its own name is UNEXPORTED:<name>, one that left the SnmpError family
+    NOT-IN-FAMILY:<name>.  PanicException is not an Exception subclass."""
     n = type(e).__name__
-    if n.startswith("Py") and n[2:] in ("SnmpError", "SnmpDecodeError", "SnmpEncodeError", "SnmpAuthError", "NoSuchInstance"):
+    gs = sys.modules.get("gufo.snmp")
+    if gs is not None and isinstance(e, Exception):
+        for nm in FAMILY:
+            if type(e) is getattr(gs, nm, None):
+                want = "Py" + nm
+                if n not in (nm, want):
+                    return "UNEXPORTED:%s-bound-to-%s" % (nm, n)      # the name is bound to another class of the family
+                root = getattr(gs, "SnmpError", None)
+                return nm if (root is None or isinstance(e, root)) else "NOT-IN-FAMILY:" + nm
+        if n.startswith("Py") and n[2:] in FAMILY:
+            return "UNEXPORTED:" + n                                   # raised, but `except gufo.snmp.%s` does not catch it
+    if n.startswith("Py") and n[2:] in FAMILY:
         n = n[2:]
     if not isinstance(e, Exception):
         return "PANIC:" + n
@@ -196,26 +213,59 @@ def call(fn, *a, **kw):
         return ("EXC", exc_class(e))
 
 
-def drain_iter(it, cap=10000):
-    """Consume a sync iterator: -> (items, ending) ; ending 'STOP' | exception class | 'CAP'"""
+def drain_iter(it, cap=10000, style="for"):
+    """Consume a sync iterator: -> (items, ending) ; ending 'STOP' | exception class | 'CAP'.
+    style: the consumer's pattern - one `for` loop; 'peek': next() for the first item, then a `for` over the same object;
+    'pages': itertools.islice(it, 2) again and again (each page calls iter() on the object, as zip / chain / a resumed
+    `for` do).  For an iterator all three are the same sequence (iter(it) is it)."""
+    import itertools
     items = []
     try:
+        if style == "peek":
+            items.append(next(it))
+            if len(items) >= cap:
+                return items, "CAP"
+        if style == "pages":
+            while True:
+                page = list(itertools.islice(it, 2))
+                items.extend(page)
+                if len(items) >= cap:
+                    return items[:cap], "CAP"
+                if len(page) < 2:          # islice stopped early: the iterator raised StopIteration
+                    return items, "STOP"
         for x in it:
             items.append(x)
             if len(items) >= cap:
                 return items, "CAP"
+    except StopIteration:
+        return items, "STOP"
     except BaseException as e:  # noqa: BLE001
         return items, exc_class(e)
     return items, "STOP"
 
 
-async def adrain_iter(it, cap=10000):
+async def adrain_iter(it, cap=10000, style="for"):
     items = []
     try:
+        if style == "peek":
+            items.append(await it.__aiter__().__anext__())
+            if len(items) >= cap:
+                return items, "CAP"
+        if style == "pages":
+            while True:
+                a = it.__aiter__()
+                n = 0
+                while n < 2:
+                    items.append(await a.__anext__())
+                    n += 1
+                    if len(items) >= cap:
+                        return items, "CAP"
         async for x in it:
             items.append(x)
             if len(items) >= cap:
                 return items, "CAP"
+    except StopAsyncIteration:
+        return items, "STOP"
     except BaseException as e:  # noqa: BLE001
         return items, exc_class(e)
     return items, "STOP"
